@@ -1,0 +1,30 @@
+//go:build verif
+
+/*
+Copyright The ORAS Authors.
+Licensed under the Apache License, Version 2.0 (the "License");
+you may not use this file except in compliance with the License.
+You may obtain a copy of the License at
+
+http://www.apache.org/licenses/LICENSE-2.0
+
+Unless required by applicable law or agreed to in writing, software
+distributed under the License is distributed on an "AS IS" BASIS,
+WITHOUT WARRANTIES OR CONDITIONS OF ANY KIND, either express or implied.
+See the License for the specific language governing permissions and
+limitations under the License.
+*/
+
+package oras
+
+import (
+	ocispec "github.com/opencontainers/image-spec/specs-go/v1"
+)
+
+// This file only re-exports an unexported function for the verification harness
+// (property C01).  It is compiled only with the build tag "verif".
+
+// VerifRemoveForeignLayers re-exports removeForeignLayers (in-place on descs).
+func VerifRemoveForeignLayers(descs []ocispec.Descriptor) []ocispec.Descriptor {
+	return removeForeignLayers(descs)
+}
